@@ -67,8 +67,8 @@ fn domain(p: P, tier: Tier) -> Vec<V> {
         P::I64 => wide_ints(i64::MIN as i128, i64::MAX as i128),
         P::F32 => f32_set(1),
         P::F64 => f64_set(1),
-        P::F32Pow => f32_set(tier.pick(16, 1)),
-        P::F64Pow => f64_set(tier.pick(128, 8)),
+        P::F32Pow => f32_set(tier.pick(4, 1)),
+        P::F64Pow => f64_set(tier.pick(32, 8)),
         P::Bool => vec![V::Bool(false), V::Bool(true)],
         P::Char => (0..=0x10ffffu32).filter_map(char::from_u32).map(V::Char).collect(),
         P::Asn => wide_ints(0, u32::MAX as i128).into_iter().map(|v| V::Asn(v.u() as u32)).collect(),
@@ -124,7 +124,7 @@ fn domain(p: P, tier: Tier) -> Vec<V> {
 
 struct Table {
     ops: Vec<Op>,
-    doms: Vec<Vec<Vec<V>>>,
+    doms: Vec<Vec<Arc<[V]>>>,
     /// (op, first-parameter index range)
     units: Vec<(usize, u64, u64)>,
 }
@@ -137,13 +137,13 @@ fn table(tier: Tier) -> Arc<Table> {
         return t.clone();
     }
     let ops: Vec<Op> = ops::ops().into_iter().filter(|o| !o.is_list).collect();
-    let mut cache: HashMap<P, Vec<V>> = HashMap::new();
+    let mut cache: HashMap<P, Arc<[V]>> = HashMap::new();
     let mut doms = vec![];
     let mut units = vec![];
     let target = tier.pick(60_000, 400_000);
     for (i, op) in ops.iter().enumerate() {
-        let d: Vec<Vec<V>> =
-            op.params.iter().map(|p| cache.entry(*p).or_insert_with(|| domain(*p, tier)).clone()).collect();
+        let d: Vec<Arc<[V]>> =
+            op.params.iter().map(|p| cache.entry(*p).or_insert_with(|| domain(*p, tier).into()).clone()).collect();
         for (lo, hi) in plan::chunks(&d, target) {
             units.push((i, lo, hi));
         }
@@ -371,7 +371,8 @@ impl Check for C17 {
                     n_nontriv += 1;
                     cx.nontrivial(vcore::util::mix(opk, e.class()));
                 }
-                if !sampled {
+                // sample the first non-trivial case of the unit
+                if !sampled && !trivial {
                     sampled = true;
                     cx.sample(json!({"builtin": op.name, "form": op.form, "script": prep.script,
                         "args": args.iter().map(|a| a.json()).collect::<Vec<_>>(),
